@@ -189,6 +189,7 @@ func (s *Schema) ValidateData(data []byte) error {
 	)
 
 	if !bytes.HasPrefix(bytes.TrimSpace(data), []byte{'{'}) {
+		exact, exactErr := yaml.YAMLToJSON(data)
 		err = yaml.Unmarshal(data, &any)
 		if err != nil {
 			return fmt.Errorf("failed to YAML unmarshal data for validation: %w", err)
@@ -196,6 +197,11 @@ func (s *Schema) ValidateData(data []byte) error {
 		data, err = json.Marshal(any)
 		if err != nil {
 			return fmt.Errorf("failed to JSON remarshal data for validation: %w", err)
+		}
+		if exactErr == nil {
+			// the generic map holds every number as a float64: validate the
+			// directly converted document, which keeps 64-bit integers exact
+			data = exact
 		}
 	}
 
